@@ -23,6 +23,34 @@ CLAIMED = {
          "is a violation. Held on the executions observed.",
          "Trusted: ASan/memcheck/Miri; HAL (operation, query) pairs in this revision, higher layers are exercised with exact windows inside the scheme-level checks where wired.",
          "DESIGN.md §C12"),
+ "C13": ("exploration", "runtime monitor: instrumented walk of the compiled tables (definedness shadow) + bit-sliced execution of the real tables vs Rust word semantics; exhaustive over small supports",
+         "Structural clauses (node indices in range, no read of a slot the previous level left undefined, table length a multiple of the state width, last chunk shape, selector range) are decided "
+         "completely by one instrumented walk per table (control flow is input independent). The functional clause runs the real node tables (hook) under the evaluator semantics over 256-lane "
+         "bit-slices: exhaustive for the 236 (quick) / 264 (thorough) of 290 output bits whose variable set has <= 31 / 40 variables; for the rest (add/sub high bits, slt/sltu) a boundary dictionary, "
+         "one constructed input per BDD edge (15 356 of 15 356 edges, path confirmed) and 2^30 / 2^35 structured random pairs per bit. The 2^64 quantifier is NOT decided for those bits: that needs a "
+         "symbolic method, which is outside this family.",
+         "Trusted: the restatement of eval_level in c13.rs (its link to the real evaluator is closed by C15 running the same tables homomorphically).",
+         "DESIGN.md §C13"),
+ "C14": ("exploration", "runtime monitor: index-level model of the look-up table for every rotation index; exact-phase decryption of real blind rotations vs the harness' own modulus switch",
+         "Clear path: after set, lookup_table_rotate(k) is called for EVERY k in [0, 2N*ext) (and negative / out-of-domain indices) and every digit of every limb is compared with an index-level "
+         "model (negacyclic sign, half-step drift, extension interleaving) on four backends. Blind path: real CGGI executions (standard, block-binary, extended; every message of Z_{2^(p+1)}, p=1..5, "
+         "both directions, extension factors 1,2,4,8, crafted boundary LWEs) decrypted with an exact phase and compared on all coefficients with the model table rotated by the harness' own mod-switch. "
+         "Held on the executions observed.",
+         "Trusted: noise floor 64 sigma_pred (worst observed 7.7); rank 1, binary LWE secrets as in the repository's tests.",
+         "DESIGN.md §C14"),
+ "C16": ("exploration", "runtime monitor: shadow complex evaluation of random CKKS programs with tracked error bound, metadata invariants, error-path and panic monitors",
+         "Random straight-line programs over 69 operation forms run on the real library (f64 and f128 plaintexts, four backends); after every step the decrypted slots are compared with a shadow "
+         "evaluation in complex double-double arithmetic within a tracked error bound, the metadata algebra is checked (log_delta + log_budget <= max_k, budget never grows, documented log_delta rule), "
+         "steps that need more budget / a missing key / an impossible alignment must return the documented error variant, and any panic is a violation. Held on the programs observed.",
+         "Trusted: the shadow model derived from m = t * 2^log_budget; tolerance 16 s + 2 h calibrated on the pinned tree (worst ratio 0.57).",
+         "DESIGN.md §C16"),
+ "C18": ("fault_enumeration", "runtime fault enumeration over byte streams: every truncation point and every header field x boundary dictionary, receiver observed through an independent wire-format model; ASan children",
+         "For the 30 serialisable types: round trip into receivers of equal / larger / smaller capacity, every truncation point of the stream, every header field replaced by each value of a boundary "
+         "dictionary (incl. products that wrap to the same length), with the receiver's invariants (size <= max_size, dims x 8 <= buffer, seed count = cells, metadata unchanged on Err) checked in "
+         "128-bit arithmetic after either outcome, attacker-sized allocations isolated in rlimited children, and receivers with broken invariants touched only in ASan children. The enumeration is "
+         "complete over truncation points and the dictionary for the shapes drawn; shapes are sampled.",
+         "Trusted: the wire-format model in c18_grammar.rs (cross-checked against public fields where they exist); release + debug-assertions + ASan builds.",
+         "DESIGN.md §C18"),
  "C15": ("exploration", "runtime monitor: homomorphic execution vs plain Rust word semantics; exact-phase decryption of every GGSW cell; enumerated grids",
          "All 11 word circuits are executed homomorphically (direct, multi-thread and packed->bootstrap->op paths) on boundary and random words incl. every shift amount 0..63; bit "
          "extraction, byte/half-word splice, sign extension, cswap, blind selection/retrieval/rotation are checked on ALL coefficients; circuit bootstrapping results (constant and exponent mode) "
